@@ -851,7 +851,17 @@ class AsyncFIXConnection:
 
         self._message_last_time = time.time()
 
-        self._journaler.persist_msg(raw_msg, self._session, MessageDirection.INBOUND)
+        if (
+            msg.msg_type == FMsg.SEQUENCERESET
+            and int(msg[FTag.MsgSeqNum]) >= self._session.next_num_in
+        ):
+            # MsgSeqNum of this reset is still to come (NewSeqNo is not above it),
+            #   its journal row would take the place of that message
+            pass
+        else:
+            self._journaler.persist_msg(
+                raw_msg, self._session, MessageDirection.INBOUND
+            )
 
         if msg.msg_type == FMsg.SEQUENCERESET:
             # journaled under its own MsgSeqNum, but next expected is NewSeqNo
